@@ -68,6 +68,8 @@ type c07Env struct {
 	ret       byte // label returned ('A','B','I','?' unknown, 0 none)
 	err       error
 	done      bool
+	// relabel reads the label off the response object the last call returned, once more
+	relabel func() (byte, error)
 }
 
 var errScripted = errors.New("scripted node error")
@@ -365,7 +367,9 @@ func c07Strats() []c07Strat {
 				adbest.WithAttestationDataProviders(adProviders(e)))
 			must(err)
 			return func(ctx context.Context) (byte, error) {
-				return adLabel(s.AttestationData(ctx, &api.AttestationDataOpts{Slot: c07Slot, CommitteeIndex: 1}))
+				r, err := s.AttestationData(ctx, &api.AttestationDataOpts{Slot: c07Slot, CommitteeIndex: 1})
+				e.relabel = func() (byte, error) { return adLabel(r, err) }
+				return adLabel(r, err)
 			}
 		}},
 		{name: "attestationdata/majority", fam: "majority", kinds: "ABCIJE", thresh: true, mk: func(e *c07Env) func(context.Context) (byte, error) {
@@ -374,7 +378,9 @@ func c07Strats() []c07Strat {
 				admajority.WithThreshold(e.threshold), admajority.WithAttestationDataProviders(adProviders(e)))
 			must(err)
 			return func(ctx context.Context) (byte, error) {
-				return adLabel(s.AttestationData(ctx, &api.AttestationDataOpts{Slot: c07Slot, CommitteeIndex: 1}))
+				r, err := s.AttestationData(ctx, &api.AttestationDataOpts{Slot: c07Slot, CommitteeIndex: 1})
+				e.relabel = func() (byte, error) { return adLabel(r, err) }
+				return adLabel(r, err)
 			}
 		}},
 		{name: "attestationdata/first", fam: "first", kinds: "ABE", mk: func(e *c07Env) func(context.Context) (byte, error) {
@@ -382,7 +388,9 @@ func c07Strats() []c07Strat {
 				adfirst.WithAttestationDataProviders(adProviders(e)))
 			must(err)
 			return func(ctx context.Context) (byte, error) {
-				return adLabel(s.AttestationData(ctx, &api.AttestationDataOpts{Slot: c07Slot, CommitteeIndex: 1}))
+				r, err := s.AttestationData(ctx, &api.AttestationDataOpts{Slot: c07Slot, CommitteeIndex: 1})
+				e.relabel = func() (byte, error) { return adLabel(r, err) }
+				return adLabel(r, err)
 			}
 		}},
 		{name: "aggregateattestation/best", fam: "best", kinds: "ABE", mk: func(e *c07Env) func(context.Context) (byte, error) {
@@ -394,7 +402,9 @@ func c07Strats() []c07Strat {
 				aabest.WithTimeout(c07Timeout), aabest.WithAggregateAttestationProviders(m))
 			must(err)
 			return func(ctx context.Context) (byte, error) {
-				return aaLabel(s.AggregateAttestation(ctx, &api.AggregateAttestationOpts{Slot: c07Slot}))
+				r, err := s.AggregateAttestation(ctx, &api.AggregateAttestationOpts{Slot: c07Slot})
+				e.relabel = func() (byte, error) { return aaLabel(r, err) }
+				return aaLabel(r, err)
 			}
 		}},
 		{name: "aggregateattestation/first", fam: "first", kinds: "ABE", mk: func(e *c07Env) func(context.Context) (byte, error) {
@@ -406,7 +416,9 @@ func c07Strats() []c07Strat {
 				aafirst.WithAggregateAttestationProviders(m))
 			must(err)
 			return func(ctx context.Context) (byte, error) {
-				return aaLabel(s.AggregateAttestation(ctx, &api.AggregateAttestationOpts{Slot: c07Slot}))
+				r, err := s.AggregateAttestation(ctx, &api.AggregateAttestationOpts{Slot: c07Slot})
+				e.relabel = func() (byte, error) { return aaLabel(r, err) }
+				return aaLabel(r, err)
 			}
 		}},
 		{name: "beaconblockproposal/best", fam: "best", kinds: "ABIE", mk: func(e *c07Env) func(context.Context) (byte, error) {
@@ -420,7 +432,9 @@ func c07Strats() []c07Strat {
 				bpbest.WithSignedBeaconBlockProvider(c18Blocks{}), bpbest.WithBlockRootToSlotCache(tableCache{}))
 			must(err)
 			return func(ctx context.Context) (byte, error) {
-				return bpLabel(s.Proposal(ctx, &api.ProposalOpts{Slot: c07Slot}))
+				r, err := s.Proposal(ctx, &api.ProposalOpts{Slot: c07Slot})
+				e.relabel = func() (byte, error) { return bpLabel(r, err) }
+				return bpLabel(r, err)
 			}
 		}},
 		{name: "beaconblockproposal/first", fam: "first", kinds: "ABE", mk: func(e *c07Env) func(context.Context) (byte, error) {
@@ -431,7 +445,9 @@ func c07Strats() []c07Strat {
 			s, err := bpfirst.New(bg, bpfirst.WithLogLevel(zerolog.Disabled), bpfirst.WithClientMonitor(mon), bpfirst.WithTimeout(c07Timeout), bpfirst.WithProposalProviders(m))
 			must(err)
 			return func(ctx context.Context) (byte, error) {
-				return bpLabel(s.Proposal(ctx, &api.ProposalOpts{Slot: c07Slot}))
+				r, err := s.Proposal(ctx, &api.ProposalOpts{Slot: c07Slot})
+				e.relabel = func() (byte, error) { return bpLabel(r, err) }
+				return bpLabel(r, err)
 			}
 		}},
 		{name: "synccommitteecontribution/best", fam: "best", kinds: "ABIE", mk: func(e *c07Env) func(context.Context) (byte, error) {
@@ -443,7 +459,9 @@ func c07Strats() []c07Strat {
 				scbest.WithTimeout(c07Timeout), scbest.WithSyncCommitteeContributionProviders(m))
 			must(err)
 			return func(ctx context.Context) (byte, error) {
-				return scLabel(s.SyncCommitteeContribution(ctx, &api.SyncCommitteeContributionOpts{Slot: c07Slot}))
+				r, err := s.SyncCommitteeContribution(ctx, &api.SyncCommitteeContributionOpts{Slot: c07Slot})
+				e.relabel = func() (byte, error) { return scLabel(r, err) }
+				return scLabel(r, err)
 			}
 		}},
 		{name: "synccommitteecontribution/first", fam: "first", kinds: "ABE", mk: func(e *c07Env) func(context.Context) (byte, error) {
@@ -455,7 +473,9 @@ func c07Strats() []c07Strat {
 				scfirst.WithSyncCommitteeContributionProviders(m))
 			must(err)
 			return func(ctx context.Context) (byte, error) {
-				return scLabel(s.SyncCommitteeContribution(ctx, &api.SyncCommitteeContributionOpts{Slot: c07Slot}))
+				r, err := s.SyncCommitteeContribution(ctx, &api.SyncCommitteeContributionOpts{Slot: c07Slot})
+				e.relabel = func() (byte, error) { return scLabel(r, err) }
+				return scLabel(r, err)
 			}
 		}},
 		{name: "beaconblockroot/first", fam: "first", kinds: "ABE", mk: func(e *c07Env) func(context.Context) (byte, error) {
@@ -466,7 +486,9 @@ func c07Strats() []c07Strat {
 			s, err := brfirst.New(bg, brfirst.WithLogLevel(zerolog.Disabled), brfirst.WithClientMonitor(mon), brfirst.WithTimeout(c07Timeout), brfirst.WithBeaconBlockRootProviders(m))
 			must(err)
 			return func(ctx context.Context) (byte, error) {
-				return brLabel(s.BeaconBlockRoot(ctx, &api.BeaconBlockRootOpts{Block: "head"}))
+				r, err := s.BeaconBlockRoot(ctx, &api.BeaconBlockRootOpts{Block: "head"})
+				e.relabel = func() (byte, error) { return brLabel(r, err) }
+				return brLabel(r, err)
 			}
 		}},
 		{name: "beaconblockroot/latest", fam: "best", kinds: "ABE", mk: func(e *c07Env) func(context.Context) (byte, error) {
@@ -478,7 +500,9 @@ func c07Strats() []c07Strat {
 				brlatest.WithTimeout(c07Timeout), brlatest.WithBlockRootToSlotCache(tableCache{}), brlatest.WithBeaconBlockRootProviders(m))
 			must(err)
 			return func(ctx context.Context) (byte, error) {
-				return brLabel(s.BeaconBlockRoot(ctx, &api.BeaconBlockRootOpts{Block: "head"}))
+				r, err := s.BeaconBlockRoot(ctx, &api.BeaconBlockRootOpts{Block: "head"})
+				e.relabel = func() (byte, error) { return brLabel(r, err) }
+				return brLabel(r, err)
 			}
 		}},
 		{name: "beaconblockroot/majority", fam: "majority", kinds: "ABE", mk: func(e *c07Env) func(context.Context) (byte, error) {
@@ -490,7 +514,9 @@ func c07Strats() []c07Strat {
 				brmajority.WithTimeout(c07Timeout), brmajority.WithBlockRootToSlotCache(tableCache{}), brmajority.WithBeaconBlockRootProviders(m))
 			must(err)
 			return func(ctx context.Context) (byte, error) {
-				return brLabel(s.BeaconBlockRoot(ctx, &api.BeaconBlockRootOpts{Block: "head"}))
+				r, err := s.BeaconBlockRoot(ctx, &api.BeaconBlockRootOpts{Block: "head"})
+				e.relabel = func() (byte, error) { return brLabel(r, err) }
+				return brLabel(r, err)
 			}
 		}},
 		{name: "beaconblockheader/first", fam: "first", kinds: "ABE", mk: func(e *c07Env) func(context.Context) (byte, error) {
@@ -505,10 +531,13 @@ func c07Strats() []c07Strat {
 				if err != nil {
 					return 0, err
 				}
-				if r == nil || r.Data == nil {
-					return '?', nil
+				e.relabel = func() (byte, error) {
+					if r == nil || r.Data == nil {
+						return '?', nil
+					}
+					return r.Data.Root[0], nil
 				}
-				return r.Data.Root[0], nil
+				return e.relabel()
 			}
 		}},
 		{name: "signedbeaconblock/first", fam: "first", kinds: "ABE", mk: func(e *c07Env) func(context.Context) (byte, error) {
@@ -523,10 +552,13 @@ func c07Strats() []c07Strat {
 				if err != nil {
 					return 0, err
 				}
-				if r == nil || r.Data == nil || r.Data.Phase0 == nil {
-					return '?', nil
+				e.relabel = func() (byte, error) {
+					if r == nil || r.Data == nil || r.Data.Phase0 == nil {
+						return '?', nil
+					}
+					return r.Data.Phase0.Message.ParentRoot[0], nil
 				}
-				return r.Data.Phase0.Message.ParentRoot[0], nil
+				return e.relabel()
 			}
 		}},
 	}
@@ -601,6 +633,47 @@ func c07Units(tier string) []hx.Unit {
 			}
 		}
 	}
+	// the value a call returned stays what it was: a second call on the same strategy instance, answered with
+	// other data, must not change the object the first caller holds (the attester validates the data it
+	// obtained and signs it later)
+	for _, st := range c07Strats() {
+		st := st
+		e := &c07Env{}
+		var first, again, second byte
+		var done bool
+		u := hx.Unit{Name: "C07/" + st.name + "/second-call-keeps-first-result", Cfg: mc.Config{Fixed: true, Horizon: int64(60 * time.Second), MaxSteps: 20000}}
+		u.Body = func() {
+			// two nodes: the second answers the first call only after 10 s, whatever happens to the request (a
+			// late answer left over from the first call must not be taken for an answer to the second)
+			*e = c07Env{nodes: []c07Node{{kind: 'A', lat: 0}, {kind: 'A', lat: 6}}, arrive: []int64{-1, -1}, called: make([]int, 2), threshold: 1}
+			first, again, second, done = 0, 0, 0, false
+			call := st.mk(e)
+			first, _ = call(context.Background())
+			held := e.relabel
+			mc.Sleep(int64(12 * time.Second))
+			e.nodes[0].kind, e.nodes[1].kind, e.nodes[1].lat = 'B', 'B', 0
+			second, _ = call(context.Background())
+			if held != nil {
+				again, _ = held()
+			}
+			done = true
+		}
+		u.Check = func(r *mc.Result) mc.Verdict {
+			v := mc.Verdict{Outcome: fmt.Sprintf("reuse:%c%c%c", first, second, again), Nontrivial: true, Sample: fmt.Sprintf("%s: first call -> %c, second call (node now answers B) -> %c, the first result read again -> %c", st.name, first, second, again)}
+			switch {
+			case r.Panic != "":
+				v.Violation, v.Key = v.Sample+": panic: "+firstLine(r.Panic), "C07/"+st.name+"/panic"
+			case !done:
+				v.Violation, v.Key = v.Sample+": a call never returned", "C07/"+st.name+"/never-returned"
+			case first != 'A' || second != 'B':
+				v.Violation, v.Key = v.Sample+": a call did not return what its nodes gave", "C07/"+st.name+"/value-nobody-gave"
+			case again != first:
+				v.Violation, v.Key = v.Sample+": the response returned by the first call was changed by the second call on the same strategy", "C07/"+st.name+"/returned-value-overwritten-by-later-call"
+			}
+			return v
+		}
+		units = append(units, u)
+	}
 	return units
 }
 
@@ -634,7 +707,9 @@ func c07Check(st *c07Strat, e *c07Env, r *mc.Result) mc.Verdict {
 	if t1 > timeout {
 		return fail("returned-after-timeout", "returned after the configured timeout")
 	}
-	valid := func(k byte) bool { return k == 'A' || k == 'B' || k == 'C' || ((k == 'I' || k == 'J') && !strings.Contains(st.kinds, "I")) }
+	valid := func(k byte) bool {
+		return k == 'A' || k == 'B' || k == 'C' || ((k == 'I' || k == 'J') && !strings.Contains(st.kinds, "I"))
+	}
 	// arrival sets
 	type arr struct {
 		k byte
@@ -747,7 +822,7 @@ func init() {
 	hx.Register(&hx.Prop{
 		ID:    "C07",
 		Title: "Multi-node strategies return the right valid answer, in bounded time",
-		Rule: "for each of the strategy implementations and n = 1..3 scripted beacon nodes: every assignment of response kind (valid-high, valid-low, for the attestation data majority also a value sharing the head of valid-high but differing in its source, invalid where the strategy has a validity rule, error) and latency (0, <soft, =soft, between, =timeout, never, late ignoring cancellation) per node, and for majority every threshold 1..n; " +
+		Rule: "for each of the strategy implementations and n = 1..3 scripted beacon nodes: every assignment of response kind (valid-high, valid-low, for the attestation data majority also a value sharing the head of valid-high but differing in its source, invalid where the strategy has a validity rule, error) and latency (0, <soft, =soft, between, =timeout, never, late ignoring cancellation) per node, and for majority every threshold 1..n; per strategy also two calls in a row on one instance, a late answer to the first arriving in between (the second returns what its nodes give, the response object of the first is unchanged by it); " +
 			"per assignment every order of same-instant events and every select tie within the schedule bound (n<=2: preemption bound 1 quick / 2 thorough; n=3: deviation bound 0 quick / 1 thorough); oracle on the observed return instant against the arrival sets; non-trivial = more than one node or a select tie; distinct = distinct (family, result, return second) outcomes",
 		Assumptions: []string{
 			"nodes honour request cancellation except the explicit 'late ignoring cancellation' latency",
